@@ -77,6 +77,9 @@ func hostileAddr(r *fw.Rand, n int) []byte {
 
 func runC18(c *fw.Ctx) {
 	r := c.Rng
+	if c.Case%64 == 1 { // 5 quick / 32 thorough cases: allocation at the top of the id space
+		c18TopOfIDSpace(c, ^uint64(0)-uint64((c.Case/64)%3))
+	}
 	// ---------- (a) key builders
 	var ids []uint64
 	if c.Case == 0 {
